@@ -103,6 +103,8 @@ def run_real(case):
     rec = mrun.run(spec, setup=mon.attach)
     counts = e2e.base_counts(rec)
     counts.update(mon.counts())
+    if case["idx"] % 10 == 0:
+        mon.viols += e2e.audit(spec, rec, counts)
     nmod = 0
     if rec.run.tr is not None and hasattr(rec.run.tr, "_models"):
         mm = rec.run.tr.models
